@@ -29,6 +29,8 @@ type Action struct {
 	Raw     []byte
 	RawDesc string
 	D       time.Duration
+	// Expect of a "connectraw" action: accept | code1 | code2 | code4 | close | code1-or-close | pending
+	Expect string
 }
 
 func (a Action) String() string {
@@ -55,6 +57,10 @@ func (a Action) String() string {
 		return fmt.Sprintf("%s:pub+rel(%s,q2,r%v,id=%d,%s)", a.Client, a.Topic, a.Retain, a.ID, short(a.Payload))
 	case "raw":
 		return fmt.Sprintf("%s:raw(%s)", a.Client, a.RawDesc)
+	case "connectraw":
+		return fmt.Sprintf("%s:first-packet(%s => %s)", a.Client, a.RawDesc, a.Expect)
+	case "send":
+		return fmt.Sprintf("%s:send(%s)", a.Client, a.RawDesc)
 	case "advance":
 		return fmt.Sprintf("advance(%v)", a.D)
 	case "lpub":
@@ -76,6 +82,7 @@ type Harness struct {
 	localGot map[string][]*refcodec.Packet
 	// pending QoS 2 exchanges whose hand-over was allowed early (see pubrel)
 	Mism []Mismatch
+	Now  int64 // virtual nanoseconds since the start
 	// StrictSubClose: a SUBSCRIBE/UNSUBSCRIBE answered by closing the connection is
 	// acceptable (C07 says so) — always true; kept for clarity
 }
@@ -136,6 +143,13 @@ func exp(exps map[string]*Exp, name string) *Exp {
 	return e
 }
 
+// touch records client activity for the keep-alive model.
+func (h *Harness) touch(name string) {
+	if c := h.M.conns[name]; c != nil {
+		c.lastRecv = h.Now
+	}
+}
+
 // Step performs one action on the real broker and on the model, lets the
 // system settle and compares everything every receiver got.
 func (h *Harness) Step(a Action) []Mismatch {
@@ -151,7 +165,11 @@ func (h *Harness) Step(a Action) []Mismatch {
 	}
 	exps := map[string]*Exp{}
 	var altClose []string // clients for which "closed instead of answered" is acceptable
+	var either []string   // connections whose keep-alive is in the grey zone between K and 1.5 K
 	m := h.M
+	if a.Client != "" && a.Kind != "advance" {
+		h.touch(a.Client)
+	}
 	mc := m.conns[a.Client]
 	rc := h.byName[a.Client]
 	switch a.Kind {
@@ -161,8 +179,10 @@ func (h *Harness) Step(a Action) []Mismatch {
 			return []Mismatch{{"harness", "dial failed: " + err.Error()}}
 		}
 		h.byName[a.Client] = c
+		name := a.Client
+		c.OnSend = func() { h.touch(name) }
 		c.Send(ConnectPacket(a.Opts))
-		nc := &mconn{name: a.Client, cid: a.Opts.ClientID, clean: a.Opts.Clean, will: a.Opts.Will, open: true, keepAlive: a.Opts.KeepAlive, qos2in: map[uint16]*refcodec.Packet{}}
+		nc := &mconn{name: a.Client, cid: a.Opts.ClientID, clean: a.Opts.Clean, will: a.Opts.Will, open: true, keepAlive: a.Opts.KeepAlive, qos2in: map[uint16]*refcodec.Packet{}, lastRecv: h.Now}
 		m.conns[a.Client] = nc
 		e := exp(exps, a.Client)
 		e.Comp = "acks"
@@ -295,6 +315,73 @@ func (h *Harness) Step(a Action) []Mismatch {
 		addDeliveries(exps, h.endConn(mc, true))
 	case "advance":
 		vsched.Advance(a.D)
+		h.Now += int64(a.D)
+		var names []string
+		for n := range m.conns {
+			names = append(names, n)
+		}
+		sort.Strings(names)
+		for _, n := range names {
+			c := m.conns[n]
+			if !c.open {
+				continue
+			}
+			if !c.accepted {
+				// CONNECT not complete: the connect timeout (2 s) applies from the dial
+				if h.Now-c.dialed > int64(2*time.Second) {
+					exp(exps, n).MustClose = true
+					c.open = false
+				}
+				continue
+			}
+			k := int64(c.keepAlive) * int64(time.Second)
+			gap := h.Now - c.lastRecv
+			switch {
+			case gap*2 > 3*k:
+				exp(exps, n).MustClose = true
+				addDeliveries(exps, h.endConn(c, true))
+			case gap >= k:
+				either = append(either, n)
+			}
+		}
+	case "connectraw":
+		c, err := h.W.Dial(a.Client)
+		if err != nil {
+			return []Mismatch{{"harness", "dial failed: " + err.Error()}}
+		}
+		h.byName[a.Client] = c
+		name := a.Client
+		c.OnSend = func() { h.touch(name) }
+		c.SendRaw(a.Raw)
+		nc := &mconn{name: a.Client, open: true, qos2in: map[uint16]*refcodec.Packet{}, lastRecv: h.Now, dialed: h.Now}
+		m.conns[a.Client] = nc
+		e := exp(exps, a.Client)
+		e.Comp = "connect"
+		e.Desc = "answer to the first packet"
+		switch a.Expect {
+		case "code1", "code2", "code4":
+			e.Must = []*refcodec.Packet{{Type: refcodec.CONNACK, ReturnCode: a.Expect[4] - '0'}}
+			e.MustClose = true
+			nc.open = false
+		case "close":
+			e.MustClose = true
+			nc.open = false
+		case "code1-or-close":
+			e.MustClose = true
+			e.MayCodes = map[byte]bool{1: true}
+			nc.open = false
+		case "pending":
+			// incomplete CONNECT: nothing may happen until the connect timeout
+		default:
+			return []Mismatch{{"harness", "connectraw cannot expect " + a.Expect}}
+		}
+	case "send":
+		// bytes on a connection that was not accepted: no effect, no answer
+		rc.SendRaw(a.Raw)
+		if mc != nil && mc.open && !mc.accepted && a.Expect == "close" {
+			exp(exps, a.Client).MustClose = true
+			mc.open = false
+		}
 	case "lsub":
 		fn := h.localFn[a.Client]
 		if fn == nil {
@@ -358,6 +445,13 @@ func (h *Harness) Step(a Action) []Mismatch {
 			e.MustClose = true
 			addDeliveries(exps, h.endConn(m.conns[name], true))
 			// the will fan-out happened before we looked: nothing more to wait for
+		}
+	}
+	for _, name := range either {
+		c := h.byName[name]
+		if c.EOF || c.ReadErr != "" {
+			exp(exps, name).MustClose = true
+			addDeliveries(exps, h.endConn(m.conns[name], true))
 		}
 	}
 	return h.compare(exps)
